@@ -67,7 +67,7 @@ func isWrite(k model.Kind) bool {
 // delete an expired entry), which is what "a modification in flight" means for Size/Count.
 func mayModify(k model.Kind) bool {
 	switch k {
-	case model.CGet, model.CGetExp, model.CGetTTL:
+	case model.CGet, model.CGetExp, model.CGetTTL, model.CRange, model.CItems:
 		return true
 	}
 	return isWrite(k)
@@ -406,7 +406,7 @@ func finishLin(p *Program, s *Sched, out *Outcome) {
 	v := lin.Check(out.m, evs)
 	out.LinNodes = v.Nodes
 	if !v.OK {
-		if strings.HasPrefix(v.Explain, "search budget") {
+		if strings.HasPrefix(v.Explain, "search budget") || strings.HasPrefix(v.Explain, "history too long") {
 			out.Classes["lin-inconclusive"] = true
 			return
 		}
@@ -530,9 +530,13 @@ func buildHistory(p *Program, recs []Rec) ([]lin.Ev, string) {
 		case model.CDeleteExpired:
 			parent := r.Op.String()
 			fired := map[int]int{}
+			twice := map[int]bool{}
 			for _, kv := range res.Ev {
-				if _, dup := fired[kv.K]; dup {
-					return nil, fmt.Sprintf("double-callback: one DeleteExpired fired the callback twice for k%d (%v)", kv.K, res.Ev)
+				if pv, dup := fired[kv.K]; dup {
+					if pv == kv.V {
+						return nil, fmt.Sprintf("double-callback: one DeleteExpired fired the callback twice for the same stored value (k%d,%d) (%v)", kv.K, kv.V, res.Ev)
+					}
+					twice[kv.K] = true // two different stored values of one key removed by one pass: not decomposable, left to the global at-most-once rule
 				}
 				if kv.K < 0 || kv.K >= p.Hot {
 					return nil, fmt.Sprintf("callback-for-unexpired: DeleteExpired fired (k%d,%d); that key never had an expiring entry", kv.K, kv.V)
@@ -540,6 +544,9 @@ func buildHistory(p *Program, recs []Rec) ([]lin.Ev, string) {
 				fired[kv.K] = kv.V
 			}
 			for k := 0; k < p.Hot; k++ {
+				if twice[k] {
+					continue
+				}
 				v, ok := fired[k]
 				evs = append(evs, lin.Ev{Op: model.Op{K: model.PSweepKey, Key: k}, Res: &model.Res{V: v, OK: ok}, Inv: r.Inv, Ret: r.Ret, Thread: r.Thread, Parent: parent, Nows: spanNow(r), CBAmbig: callbackSwapOverlaps(recs, r)})
 			}
